@@ -169,14 +169,28 @@ def tla_unescape(s):
     return s.replace('\\"', '"').replace("\\\\", "\\")
 
 
-def model_check(ctx, module, cfg_text, name=None, workers=None, timeout=3600, expect_violation=None, want_cases=False):
-    """Run TLC on a spec machine.  Returns dict(states, distinct, cases)."""
+def model_check(ctx, module, cfg_text, name=None, workers=None, timeout=3600, expect_violation=None, want_cases=False, simulate=None):
+    """Run TLC on a spec machine.  Returns dict(states, distinct, cases).
+    simulate=(num, depth, seed): random behaviours (tlc -simulate) instead of the exhaustive search."""
     name = name or module
     cfgname = f"{name}.cfg"
     open(os.path.join(ctx.specdir, cfgname), "w").write(cfg_text)
     t = time.time()
-    rc, out = java_tlc(ctx.specdir, module + ".tla", cfgname, workers=workers or min(NCPU, 8), timeout=timeout, xmx="8g")
+    extra = ()
+    if simulate:
+        extra = ("-simulate", "num=%d" % simulate[0], "-depth", str(simulate[1]), "-seed", str(simulate[2]))
+    rc, out = java_tlc(ctx.specdir, module + ".tla", cfgname, workers=workers or min(NCPU, 8), timeout=timeout, xmx="8g", extra=extra)
     m = RE_STATES.findall(out)
+    if simulate:
+        ms = re.findall(r"The number of states generated: (\d+)", out)
+        if not ms or rc != 0 or "Error:" in out or "is violated" in out:
+            raise Broken(f"TLC simulation of {name} failed (rc={rc}):\n{out[-3000:]}")
+        cases = sorted(set(tla_unescape(mm.group(1)) for mm in (RE_CASE.match(ln.strip()) for ln in out.splitlines()) if mm))
+        ctx.mc_transitions += int(ms[-1])
+        ctx.mc_runs.append({"spec": name, "distinct_states": 0, "states_generated": int(ms[-1]), "wall_s": round(time.time() - t, 1),
+                            "expected_violation": "", "mode": "simulate num=%d depth=%d seed=%d" % simulate})
+        log(f"model {name} (simulation): {ms[-1]} states, {len(cases)} distinct behaviours, {time.time()-t:.1f}s")
+        return {"states": int(ms[-1]), "distinct": 0, "cases": cases, "out": out}
     if not m:
         if expect_violation and f"Invariant {expect_violation} is violated" in out:
             m = [("1", "1")]     # violated already by an initial state
